@@ -280,7 +280,8 @@ def mgr_runnable(ctx: Ctx, pid: str):
     rf = _fn(ctx, MANAGER, "MethodMap.ready_for_transaction", rule)
     for ex, r in rf.only(Return, lambda r: r.callid is None, rule, "return"):
         p = rf.param(1)
-        ok = pmatch("[Q_t] + self.methods_by_transaction[Q_t]", r.value) == {"t": p} or r.value == ("op", "+", ("list", p), ("i", ("a", ("self",), "methods_by_transaction"), p))
+        ok = pmatch("[Q_t] + self.methods_by_transaction[Q_t]", r.value) == {"t": p} or r.value == ("op", "+", ("list", p), ("i", ("a", ("self",), "methods_by_transaction"), p)) \
+            or r.value == ("list", p, ("star", ("i", ("a", ("self",), "methods_by_transaction"), p)))  # [t, *methods_by_transaction[t]]
         ctx.check(ok, rule + ".ready_for_transaction", r.site, "MethodMap.ready_for_transaction", found=tstr(r.value),
                   required="[transaction] + methods_by_transaction[transaction]")
 
